@@ -581,8 +581,13 @@ IR_FLAGS = ['-O0', '-Xclang', '-disable-O0-optnone', '-fno-discard-value-names',
 OPT_PASSES = 'mem2reg,instsimplify,simplifycfg'
 
 
+UNROLL_PASSES = ('mem2reg,instsimplify,simplifycfg,loop-simplify,loop-rotate,indvars,loop-unroll,'
+                 'instsimplify,simplifycfg')
+UNROLL_ARGS = ('-unroll-threshold=4000',)
+
+
 def compile_ir(src, repo, extra_flags=(), out_name=None, passes=OPT_PASSES,
-               lang=None, exceptions=False):
+               lang=None, exceptions=False, opt_args=()):
     """src -> JSON module (clang -> opt -> irdump). Raises AnalysisBroken on
     tool failure."""
     if not os.path.exists(IRDUMP):
@@ -598,7 +603,7 @@ def compile_ir(src, repo, extra_flags=(), out_name=None, passes=OPT_PASSES,
     r = subprocess.run(cmd, capture_output=True, text=True)
     if r.returncode != 0:
         raise AnalysisBroken('clang failed on %s:\n%s' % (src, r.stderr[-3000:]))
-    r = subprocess.run(['opt-14', '-passes=' + passes, '-S', ll, '-o', oll],
+    r = subprocess.run(['opt-14', '-passes=' + passes] + list(opt_args) + ['-S', ll, '-o', oll],
                        capture_output=True, text=True)
     if r.returncode != 0:
         raise AnalysisBroken('opt failed on %s:\n%s' % (src, r.stderr[-2000:]))
